@@ -56,7 +56,7 @@ PROPS = {
              {"runs": 14000, "budget_s": 30}, {"runs": 800000, "budget_s": 900},
              must={"all": ["successful-refreshes", "failed-refreshes", "rotations-followed", "refresh-omitted-id-token", "token-reset-after"]}),
     "C13": P("plans = login flows under configurations drawn for URL well-formedness: client ids, scopes, callback and authorization URIs with and without their own query, with reserved, space, "
-             "percent and non-ASCII characters; requested targets likewise; the provider-side strict parser (independent splitter/decoder) judges every Location; return Location compared byte for byte; "
+             "percent and non-ASCII characters; requested targets likewise; a quarter of the plans are two chains sharing one client registration (client id, secret) at one provider with a redirect URI and scopes of their own; the provider-side strict parser (independent splitter/decoder) judges every Location against the sending filter's redirect URI and scope set; return Location compared byte for byte; "
              "non-trivial = a login completed; distinct = canonical event trace x configuration",
              {"runs": 30000, "budget_s": 30}, {"runs": 800000, "budget_s": 900}, must={"all": ["logins-completed"]}),
     "C14": P("plans = the union mix: C01's fault-injecting histories, C09's concurrent logout races, C11's refresh histories with lost replies, a third of them with debug logging; every secret "
@@ -65,7 +65,7 @@ PROPS = {
              {"runs": 20000, "budget_s": 35}, {"runs": 600000, "budget_s": 900}, must={"all": ["non-ok-responses-while-secrets-live", "responses-scanned"]}),
     "C02": P("plans = histories mixing honest and Byzantine token answers on the login and the refresh path (adversarial grammar: alg=none, HMAC-with-public-key confusion, foreign key with "
              "same/other/no kid, another provider's key, tampered payload or signature, stripped signature, extra dots, two parts, JWS JSON serialisation, nested, empty, garbage, whitespace, "
-             "absent/foreign/near-miss/substring/array-without audience, absent/foreign/empty/previous nonce, another session's token), key rotation and key-source errors around validation, "
+             "absent/foreign/near-miss/substring/array-without audience, absent/foreign/empty/previous nonce, another session's token, the provider's retired or never published key), key rotation (incl. histories that outlast two key-fetch intervals on the fake clock) and key-source errors around validation, "
              "all header/preamble configurations; every token bound to a session and every stored token is re-verified by a std-lib-only verifier against the provider's keys and ledger; "
              "non-trivial = at least one forged answer was delivered and at least one honest token was bound; distinct = canonical event trace",
              {"runs": 30000, "budget_s": 30}, {"runs": 800000, "budget_s": 900}, must={"all": ["forged-answers", "tokens-bound", "justified-ok"]}),
@@ -78,7 +78,7 @@ PROPS = {
              must={"all": ["raw-requests", "token-raw-body", "store-lie", "jwks-raw-body", "discovery-raw-body", "concurrent-session-loss-runs"]}),
     "C12": P("plans = sequences of 5-80 store operations (set/get tokens, set/get/clear login state, remove, sweep, clock advance) over 1-4 session ids, each routed to the memory store or to one of "
              "two Redis store instances sharing one miniredis; after every operation the return value is compared with a plain-map model and the complete ground-truth content of each store is "
-             "compared with the model (tokens, login state, creation time, no foreign ids); a third of the plans inject Redis command failures (before/after effect) and crashes between the "
+             "compared with the model (tokens, login state, creation time, no foreign ids); three in ten fault-free plans configure limits inside the history (sessions also leave the map by running out); a third of the plans inject Redis command failures (before/after effect) and crashes between the "
              "commands of one store method, judged with the narrow prefix-of-writes relaxation; every fourth plan is a concurrent history on the memory store (2-4 client tasks x 3-6 operations on 1-2 ids) in the "
              "instrumented build (pre-emption at every statement and inside critical sections), invoke/return stamped with the global event sequence number, values unique, checked with porcupine; non-trivial = a session was created and read; distinct = operation/result trace",
              {"runs": 40000, "budget_s": 30}, {"runs": 1200000, "budget_s": 900}, instr=True,
@@ -95,7 +95,7 @@ PROPS = {
              "non-trivial = a session of one filter was presented to another; distinct = canonical event trace",
              {"runs": 4000, "budget_s": 30}, {"runs": 400000, "budget_s": 900}, must={"all": ["foreign-session-presented", "own-limits-probed", "concurrent-logins-at-different-filters", "refresh-after-another-filters-login"]}),
     "C19": P("plans = 1-4 filters mapped to Secret names (shared, distinct, inline secret, explicit own namespace; every tenth plan a cross-namespace reference that start-up must refuse) and histories of "
-             "set / delete / delete-with-finalizer / remove-key / empty events on referenced and unrelated Secrets in the own and another namespace, delivered by the simulator as reconcile requests "
+             "set / delete / delete-with-finalizer / remove-key / empty / replace (delete + re-create, also the way immutable Secrets are rotated) events on referenced and unrelated Secrets in the own and another namespace, delivered by the simulator as reconcile requests "
              "with duplication, delay and reordering, interleaved with logins and refreshes; reference = map secret name -> last non-empty value at a completed reconcile; judged at the token endpoint "
              "(Basic header on the code grant, client_secret form member on the refresh grant) and on every filter's configuration after each reconcile; "
              "non-trivial = a token request was made after a completed reconcile (or a cross-namespace start-up was judged); distinct = canonical event trace",
